@@ -122,3 +122,31 @@ def same_stat_probe(ctx, ws, n=4, binary=False):
             ctx.disagreement({"same_stat": True, "binary": binary, "k": k, "bases": [base_a, base_b]},
                              f"{'object' if binary else 'listing'} rewritten in place (same length, same mtime): first content reports {str(r1[1:2])[:60]} (expected {want1}), "
                              f"second content reports {str(r2[1:2])[:60]} (expected {want2})")
+
+
+def capture_not_stratum(ctx, d, n=1):
+    """A capture bound earlier as the direct argument of $not (operand, register-family and instruction captures): the $not rejects
+    exactly the bound text / register. Identical at every seed."""
+    rng = ctx.rng
+    insts, addr = [], 0x401000
+    rows = [("mov", ["%rax", "%rax"]), ("mov", ["%rax", "%rbx"]), ("mov", ["%rcx", "%rcx"]), ("mov", ["%rcx", "%rdx"]),
+            ("inc", ["%rsi"]), ("inc", ["%rsi"]), ("ret", []), ("inc", ["%rsi"]), ("inc", ["%rdi"]), ("ret", []),
+            ("xor", ["%eax", "%eax"]), ("xor", ["%eax", "%ebx"]), ("add", ["%rax", "%rbx", ]), ("add", ["%rbx", "%rax"])]
+    for m, ops in rows:
+        insts.append(L.SInst(addr, m, list(ops), None, None, 3))
+        addr += 3
+    prep = dsl.Prepared(d.ws, insts, rng)
+    ctx.ran()
+    if not prep.verify(d.ws):
+        ctx.inconc("parser disagreement on synthetic listing")
+        return
+    saved = getattr(d, "flags", None)
+    d.flags = "none"
+    d.prep, d.style = prep, "capture-as-not-argument"
+    for pat in ([{"mov": ["&src", {"$not": ["&src"]}]}], [{"xor": ["&a", {"$not": ["&a"]}]}], [{"mov": ["&s", "&s"]}, {"mov": ["&s", {"$not": ["&s"]}]}],
+                ["&first", {"$not": ["&first"]}, "ret"], ["&i", "&i", "ret"], ["&j", {"$not": ["&j"]}],
+                [{"mov": ["&genreg-a.64", {"$not": ["&genreg-a.64"]}]}], [{"xor": ["&genreg_b.32", {"$not": ["&genreg_b.32"]}]}],
+                [{"add": ["&x", "&y"]}, {"add": [{"$not": ["&x"]}, {"$not": ["&y"]}]}], [{"add": ["&x", "&y"]}, {"add": ["&y", {"$not": ["&y"]}]}]):
+        d.run_pattern(pat, "base", True)
+        ctx.event("capture_as_not_argument_probes")
+    d.flags = saved
